@@ -50,7 +50,7 @@ static const cfg_t cfgs[] = {
     /* ---- quick ---- */
     { "signal: W=U0,U1 S=X", 1, 2, { A_U0, A_U1 }, A_EXT, 0, 1,
       { { SIG, LOCKED } } },
-    { "broadcast: W=U0,X S=U1", 1, 2, { A_U0, A_EXT }, A_U1, 0, 1,
+    { "broadcast: W=U0,X S=U1", 0, 2, { A_U0, A_EXT }, A_U1, 0, 1,
       { { BC, LOCKED } } },
     { "signal,signal: W=U1,X S=primary", 1, 2, { A_U1, A_EXT }, A_PRIM, 0, 2,
       { { SIG, LOCKED }, { SIG, LOCKED } } },
